@@ -320,10 +320,11 @@ fn main() {
             }
             let b = std::fs::read(&args[3]).expect("cannot read plan");
             let plan: mv::plan::Plan = serde_json::from_slice(&b).expect("plan is not JSON");
+            let id9 = args[2] == "C09";
             let v = std::thread::Builder::new()
                 .name("s212".into())
                 .stack_size(256 << 20)
-                .spawn(move || mon::c07::legacy_child(&plan))
+                .spawn(move || if id9 { mon::c09::pre_activation_child(&plan) } else { mon::c07::legacy_child(&plan) })
                 .unwrap()
                 .join()
                 .expect("legacy thread died");
